@@ -709,7 +709,11 @@ class Parser(ExprParser):
         elif self.have("ID"):
             pass
         else:
-            value = None
+            self.error_msg(
+                "Expected a value after '=', found {} '{}'".format(
+                    self.token.typ, self.token.value
+                )
+            )
         self.exit("initializer")
         return value
 
